@@ -65,7 +65,25 @@ def main():
         for g, f in failed:
             print('setup: kernel not translatable: %s %s' % (g, f))
         lib.coq_makefile()
-        rc, out, err = lib.sh(['timeout', '3000', 'make', '-k', '-j%d' % lib.NCPU], cwd=lib.ROCQ, timeout=3100)
+        # build the cone of every CLAIMED property (theorems, side conditions, extraction files); files that
+        # belong to no claimed property (work in progress) are not part of the registered machinery
+        import importlib
+        props = []
+        for f in sorted(os.listdir(os.path.join(lib.VERIF, 'harness', 'props'))):
+            if re.match(r'c\d+\.py$', f):
+                prop = importlib.import_module('props.' + f[:-3])
+                if getattr(prop, 'CLAIM', None):
+                    props.append(prop)
+        targets = []
+        for prop in props:
+            targets.append(prop.COQ_PROPERTY)
+            targets.extend(prop.COQ_EXTRA)
+            for spec in (prop.MODEL, prop.MONITOR):
+                if spec:
+                    targets.append('theories/Extract/%s.vo' % spec[0])
+        targets = sorted(set(targets))
+        os.makedirs(lib.BUILD, exist_ok=True)
+        rc, out, err = lib.sh(['timeout', '3000', 'make', '-k', '-j%d' % lib.NCPU] + targets, cwd=lib.ROCQ, timeout=3100)
         if rc != 0:
             print((out + err)[-4000:])
             print('setup: make failed')
@@ -74,19 +92,17 @@ def main():
         if bad:
             print('setup: forbidden vernacular:\n  ' + '\n  '.join(bad))
             return 1
-        import importlib
-        for f in sorted(os.listdir(os.path.join(lib.VERIF, 'harness', 'props'))):
-            if not re.match(r'c\d+\.py$', f):
-                continue
-            prop = importlib.import_module('props.' + f[:-3])
+        for prop in props:
             for kind, spec in (('model', prop.MODEL), ('monitor', prop.MONITOR)):
                 if spec:
                     exe, e = lib.ocaml_build('%s_%s' % (prop.ID.lower(), kind), spec[0], spec[1])
                     if exe is None:
                         print('setup: ocaml build failed for %s %s: %s' % (prop.ID, kind, e))
                         return 1
-    print('setup: ok (%d generated files, %d kernels)' % (len(rep), sum(r['kernels'] for r in rep.values())))
-    return 0 if not failed else 1
+    print('setup: ok (%d generated files, %d kernels, %d claimed properties, %d Coq targets)' % (
+        len(rep), sum(r['kernels'] for r in rep.values()), len(props), len(targets)))
+    claimed_gen = set(g for prop in props for g in prop.GEN_FILES)
+    return 0 if not [1 for g, f in failed if g in claimed_gen] else 1
 
 
 if __name__ == '__main__':
